@@ -237,6 +237,7 @@ type countGuard struct {
 	limit    ssa.Value
 	disabled []*ssa.BasicBlock // `limit >= 0` If blocks on the same level
 	viaCall  *ssa.Call         // the guard is `if err := helper(level, n); err != nil` (helperGuard summary)
+	lvlParam int               // >= 0: the level is that integer parameter of the function (0-based); else constant
 }
 
 // countGuards finds the limit guards on count (a value set derived by conversion only from the source).
@@ -297,7 +298,7 @@ func countGuards(fn *ssa.Function, count map[ssa.Value]bool, helpers map[*ssa.Fu
 			if bo.Op == token.EQL {
 				fail = 1
 			}
-			out = append(out, countGuard{block: b, failEdge: fail, level: level, viaCall: call})
+			out = append(out, countGuard{block: b, failEdge: fail, level: level, viaCall: call, lvlParam: -1})
 		}
 	}
 	for _, b := range fn.Blocks {
@@ -320,11 +321,11 @@ func countGuards(fn *ssa.Function, count map[ssa.Value]bool, helpers map[*ssa.Fu
 			if !count[x] {
 				continue
 			}
-			k, isLimit := limitLoad(y)
+			k, lp, isLimit := limitLoadP(y)
 			if !isLimit {
 				continue
 			}
-			g := countGuard{block: b, failEdge: edge, level: k, limit: y}
+			g := countGuard{block: b, failEdge: edge, level: k, limit: y, lvlParam: lp}
 			// the "limits disabled" test: limit >= 0 on a load of the same level
 			for _, b2 := range fn.Blocks {
 				if eng.BlockIf(b2) == nil {
@@ -344,9 +345,9 @@ func countGuards(fn *ssa.Function, count map[ssa.Value]bool, helpers map[*ssa.Fu
 				if op2 != token.GEQ {
 					continue
 				}
-				k2, isL := limitLoad(x2)
+				k2, lp2, isL := limitLoadP(x2)
 				z, isZ := eng.ConstInt(y2)
-				if isL && k2 == k && isZ && z == 0 {
+				if isL && k2 == k && lp2 == lp && isZ && z == 0 {
 					g.disabled = append(g.disabled, b2)
 				}
 			}
@@ -500,9 +501,10 @@ func c04(p *core.Program, r *core.Report) {
 	type derived struct {
 		res           int
 		guardedInside bool
+		levelParam    int // >= 0: the guard inside tests MaxGeometryElements[that parameter]
 	}
 	derivedSrc := map[*ssa.Function]derived{}
-	process := func(fn *ssa.Function, c ssa.CallInstruction, resIdx int, srcName string, inside bool) {
+	process := func(fn *ssa.Function, c ssa.CallInstruction, resIdx int, srcName string, inside bool, lvlParam int) {
 		call, ok := c.(*ssa.Call)
 		if !ok {
 			return
@@ -550,7 +552,12 @@ func c04(p *core.Program, r *core.Report) {
 					}
 					d, had := derivedSrc[fn]
 					if !had {
-						d = derived{res: ri, guardedInside: true}
+						d = derived{res: ri, guardedInside: true, levelParam: -1}
+						for _, g := range guards {
+							if g.lvlParam >= 0 {
+								d.levelParam = g.lvlParam
+							}
+						}
 					}
 					if reach[b] && !inside {
 						d.guardedInside = false
@@ -599,6 +606,17 @@ func c04(p *core.Program, r *core.Report) {
 				pos = p.Pos(call.Pos())
 			}
 			if inside {
+				if lvlParam >= 0 {
+					// the level is handed to the helper: it must be the constant the level table requires here
+					k, isK := int64(-1), false
+					if lvlParam < len(call.Call.Args) {
+						k, isK = eng.ConstInt(call.Call.Args[lvlParam])
+					}
+					if !isK || k != want {
+						r.Bad(rule1, key, pos, fmt.Sprintf("count of %s is checked by %s against MaxGeometryElements[%d] (its level argument), the level table requires %d", what, srcName, k, want))
+						continue
+					}
+				}
 				r.OK(rule1, key, pos, true, "the count was checked against the limit inside "+srcName+" before it was returned")
 				continue
 			}
@@ -630,7 +648,7 @@ func c04(p *core.Program, r *core.Report) {
 					if ok, why := failEdgeReturnsTooLarge(g); !ok {
 						bad = "guard's fail edge: " + why
 					}
-					if g.level != want {
+					if g.lvlParam < 0 && g.level != want {
 						bad = fmt.Sprintf("count of %s is tested against MaxGeometryElements[%d], the level table requires %d", what, g.level, want)
 					}
 				}
@@ -645,7 +663,7 @@ func c04(p *core.Program, r *core.Report) {
 	for _, fn := range fns {
 		for _, c := range eng.Calls(fn) {
 			if eng.IsCallTo(c, mod+"/encoding/wkbcommon", "ReadUInt32") {
-				process(fn, c, 0, "ReadUInt32", false)
+				process(fn, c, 0, "ReadUInt32", false, -1)
 			}
 		}
 	}
@@ -665,7 +683,7 @@ func c04(p *core.Program, r *core.Report) {
 			for _, fn := range fns {
 				for _, c := range eng.Calls(fn) {
 					if eng.StaticCallee(c) == f {
-						process(fn, c, d.res, f.Name(), d.guardedInside)
+						process(fn, c, d.res, f.Name(), d.guardedInside, d.levelParam)
 					}
 				}
 			}
